@@ -1391,4 +1391,63 @@ example :
     let v := runV env View.empty [.addInitial ⟨1, 1, 7, 7⟩, .addInitial ⟨2, 2, 8, 8⟩, .addInitial ⟨3, 2, 8, 8⟩]
     (v.refresh env [⟨4, 2, 8, 8⟩, ⟨5, 3, 9, 9⟩]).ring.ids = [3, 2] := by decide
 
+/-! ### batches that MIX topology and status events for the SAME address -/
+
+inductive TopoKind | newNode | removedNode | movedNode
+deriving DecidableEq, Repr
+
+/-- a node event as it is on the wire: topology events carry an address too -/
+inductive EvA
+  | topology (k : TopoKind) (addr : Nat)
+  | status (c : Change) (addr : Nat)
+deriving DecidableEq, Repr
+
+/-- what `handleNodeEvent` reads of a frame: of a topology event only that it is one -/
+def EvA.forget : EvA → Ev
+  | .topology _ _ => .topology
+  | .status c a => .status c a
+
+/-- specification: the LAST status event of the batch for address `a` — whatever else the batch says about `a` -/
+def lastStatusA : List EvA → Nat → Option Change
+  | [], _ => none
+  | .topology _ _ :: t, a => lastStatusA t a
+  | .status c a' :: t, a =>
+    match lastStatusA t a with
+    | some c' => some c'
+    | none => if a' = a then some c else none
+
+theorem lastStatusA_forget (b : List EvA) (a : Nat) : lastStatus (b.map EvA.forget) a = lastStatusA b a := by
+  induction b with
+  | nil => rfl
+  | cons e t ih =>
+    cases e with
+    | topology k x => simp only [List.map_cons, EvA.forget, lastStatus, lastStatusA]; exact ih
+    | status c x => simp only [List.map_cons, EvA.forget, lastStatus, lastStatusA]; rw [ih]; rfl
+
+/-- `C16_mixed_batch_status_decides`. For EVERY batch of node events in which topology events (NEW_NODE / REMOVED_NODE /
+MOVED_NODE) carry ANY addresses — in particular addresses that also have UP / DOWN events in the same batch, in any
+order and number —: (1) the status `handleNodeEvent` dispatches for an address is the LAST status event of the batch for
+that address, whatever topology events name the address; (2) two batches with the same last status per address and the
+same "contains a topology event" lead to the same view: a topology event for an address never suppresses or alters the
+handling of that address's status. -/
+theorem C16_mixed_batch_status_decides (env : Env) (v : View) (b : List EvA)
+    (hs : SInv v.ring) (hc : ConnSep v.ring (keys (coalesce (b.map EvA.forget)))) :
+    (∀ a, lookup (coalesce (b.map EvA.forget)) a = lastStatusA b a) ∧
+    (∀ b' : List EvA, hasTopology (b'.map EvA.forget) = hasTopology (b.map EvA.forget) →
+      (∀ a, lastStatusA b' a = lastStatusA b a) →
+      Same (v.handleBatch env (b'.map EvA.forget)) (v.handleBatch env (b.map EvA.forget))) := by
+  obtain ⟨h1, _, _, h4⟩ := C16_status_last_wins env v (b.map EvA.forget) hs hc
+  refine ⟨fun a => (h1 a).trans (lastStatusA_forget b a), fun b' ht hl => h4 _ ht (fun a => ?_)⟩
+  rw [lastStatusA_forget, lastStatusA_forget]; exact hl a
+
+/-- non-vacuity: MOVED_NODE 7, DOWN 7 (either order) on a view that has host 1 at address 7 in its policy: the host is
+marked down and leaves the policy, and a refresh is requested -/
+example :
+    let env : Env := ⟨fun _ => false, fun _ => true, false, false, false⟩
+    let v := (View.empty.addInitial env ⟨1, 1, 7, 7⟩)
+    let b1 := [EvA.topology .movedNode 7, .status .down 7].map EvA.forget
+    let b2 := [EvA.status .down 7, .topology .movedNode 7].map EvA.forget
+    (v.handleBatch env b1).down = [1] ∧ (v.handleBatch env b1).pol.loc = [] ∧ (v.handleBatch env b1).refreshReq = 1 ∧
+    (v.handleBatch env b2).down = [1] ∧ (v.handleBatch env b2).pol.loc = [] := by decide
+
 end C16
